@@ -1,9 +1,9 @@
 package props
 
 import (
-	"strings"
 	"bytes"
 	"fmt"
+	"strings"
 
 	"github.com/cloudwego/dynamicgo/thrift"
 	"github.com/cloudwego/dynamicgo/thrift/generic"
